@@ -26,21 +26,54 @@ Local Open Scope N_scope.
    every variable or parameter it is handed on to ([copies_readonly] lists every copy with
    the category of each of its mentions, Spec/CloneShape.v says which categories are
    harmless and that the table is closed under handing on); nothing else in package jen
-   touches a Statement value.  Hence every builder call is an OAppend, Clone is OClone with
-   [clone_wrap], newStatement is ONew.  Changing Clone to copy the header, letting any
-   function write an element in place, append to a copy, store or return a copy, or take an
-   address, makes this fail at coqc time. *)
+   touches a Statement value.
+
+   `*s = append( *s, ..)` is an [OAppend] on the cell the user called the builder on only if
+   `s` still points to that cell and the statement runs during the call.  So the translator
+   also reports (in append_only_violations / other_writes): every assignment to, and every
+   address of, a receiver or parameter of type *Statement; the append inside a function
+   literal or under go/defer (a closure may run after the call returned); every conversion
+   from or to a pointer to Statement, []Code or a type with that underlying type (so `*p` of
+   a pointer of another type cannot be a statement's cell), package unsafe, and statements
+   handed to package reflect.  And no OTHER cell that existed before the call may be appended
+   to: [builder_calls] lists every mention of a method of Statement in package jen with what
+   its receiver expression is, and [foreign_builder_calls] (Spec/CloneShape.v) keeps those
+   that are neither the enclosing method's own receiver, nor a cell created during the same
+   call (`newStatement().Op(op)`, `s := Op(op)` in a Group method), nor mentions of a method
+   that never appends to its receiver (render, isNull, previous, ...): it must be empty.
+
+   Hence every builder call is an OAppend on its receiver, Clone is OClone with [clone_wrap],
+   newStatement is ONew.  Changing Clone to copy the header, letting any function write an
+   element in place, append to a copy, store or return a copy, take an address, redirect the
+   receiver, append to another statement, or defer the append into a closure, makes this fail
+   at coqc time. *)
 Theorem C20_code_shape :
   clone_body_is_wrap = true /\ forallb snd append_only_methods = true /\
   append_only_violations = [] /\ other_writes = [] /\
   copies_closed_readonly copies_readonly = true /\
-  statement_is_code_slice = true /\ new_statement_is_fresh = true.
+  statement_is_code_slice = true /\ new_statement_is_fresh = true /\
+  foreign_builder_calls ptr_results ptr_locals self_appending_methods builder_calls = [].
 Proof. vm_compute. repeat split; reflexivity. Qed.
 
 (* What the table check means: every mention of every copy of a Statement's slice header
    either only reads (range, index read, len, cap, nil comparison, source of append/copy,
    reslice of itself) or hands the header on - possibly resliced or converted - to a local
-   variable or a parameter of a function of package jen that is in the table too ... *)
+   variable or a parameter of a function of package jen that is in the table too ...
+
+   When the table is [] (the pinned tree) this says nothing by itself; that NO copy exists
+   then rests on the translator's enumeration, which is trusted and is exactly this: every
+   node of every non-test file of package jen (as `go build` without tags selects them) that
+   go/types records as an expression whose type is identical to Statement and that is a
+   value (not a type), except a parenthesis around one and a composite literal
+   `Statement{..}`, gets a category from its syntactic position; it gets a row unless the
+   category is one of the five direct ones (operand of range, X of an index expression that
+   is read, argument of len, of cap, and `*s` on either side of - or the append call in -
+   `*s = append( *s, ..)` on the receiver), whose numbers are in [direct_header_uses].  A
+   header can be copied without such an expression appearing only by copying a composite
+   value that holds a Statement (reported: any expression whose type holds a Statement by
+   value in a struct, array, slice, map or channel), by `for .. = range` (reported), through
+   a pointer of another type (reported, above), or by unsafe/reflect (reported, above; reflect
+   on a statement held in an interface value is not seen). *)
 Theorem C20_copies_table_sound : table_sound copies_readonly.
 Proof. exact (proj1 (copies_closed_readonly_iff copies_readonly) (proj1 (proj2 (proj2 (proj2 (proj2 C20_code_shape)))))). Qed.
 
@@ -49,6 +82,27 @@ Proof. exact (proj1 (copies_closed_readonly_iff copies_readonly) (proj1 (proj2 (
 Theorem C20_copies_never_write : forall r u,
   In r copies_readonly -> In u (row_uses r) -> ~ writes_or_escapes (final_use u).
 Proof. exact (sound_table_never_writes copies_readonly (proj1 (proj2 (proj2 (proj2 (proj2 C20_code_shape)))))). Qed.
+
+(* Every mention of a method of Statement in package jen has as its receiver the cell the
+   enclosing method was called on (the receiver identifier, a single-assignment local bound
+   to it, or the result of a receiver-returning method on it), or a cell created during the
+   same call (&Statement{..}, the result of a function of jen all of whose returns are
+   fresh, a receiver-returning method on such a result, a single-assignment local bound to
+   one), or the method never appends to its receiver (it neither contains the append nor
+   calls, on its own cell, a method that does). *)
+Theorem C20_builder_calls_sound :
+  calls_sound ptr_results ptr_locals self_appending_methods builder_calls.
+Proof.
+  exact (foreign_builder_calls_nil_sound _ _ _ _
+           (proj2 (proj2 (proj2 (proj2 (proj2 (proj2 (proj2 C20_code_shape)))))))).
+Qed.
+
+(* not vacuous: some calls are accepted because their receiver is fresh (on the pinned tree the
+   123 `newStatement().X(..)` / `Comment(c).render(..)` of the package functions), and some
+   methods do append *)
+Example C20_builder_calls_nonempty :
+  fresh_builder_calls ptr_results ptr_locals builder_calls <> [] /\ self_appending_methods <> [].
+Proof. vm_compute. split; discriminate. Qed.
 
 (* ---- the invariant ----
    No two live statement variables' headers reference the same array.  It is established
@@ -204,6 +258,7 @@ Proof. vm_compute. split; reflexivity. Qed.
 Print Assumptions C20_code_shape.
 Print Assumptions C20_copies_table_sound.
 Print Assumptions C20_copies_never_write.
+Print Assumptions C20_builder_calls_sound.
 Print Assumptions C20_Inv_no_shared_array_step.
 Print Assumptions C20_Inv_no_shared_array.
 Print Assumptions C20_refines_lists.
